@@ -1,6 +1,7 @@
 package mon
 
 import (
+	"encoding/base64"
 	"fmt"
 	"net/url"
 	"strings"
@@ -27,7 +28,7 @@ func C16(c *run.Ctx) {
 	c.Need("c16_tokens_after_approval", 1)
 	c.Need("c16_refused_polls", 1)
 	c.Need("c16_replays", 1)
-	events := []string{"accept", "reject", "pollR", "pollW", "pollWbody", "pollRsplit", "expire", "tick"}
+	events := []string{"accept", "reject", "pollR", "pollW", "pollWbody", "pollWpub", "pollRsplit", "expire", "tick"}
 	maxLen := 4
 	if !c.Quick() {
 		maxLen = 6
@@ -58,6 +59,8 @@ func C16(c *run.Ctx) {
 		openid := variant&4 != 0
 		db := (si/8)%3 == 0
 		w := world.New(world.Opts{Mode: world.Mode{ContractDevice: contract, DB: db, Hydrate: (si/3)%2 == 1}, JWTAccess: (si/24)%2 == 1, Cfg: func(cfg *fosite.Config) { cfg.DeviceAndUserCodeLifespan = 5 * time.Minute }})
+		w.AddClient(world.ClientSpec{ID: "pub-x", Public: true, RedirectURIs: []string{"https://app-x.example/cb"}, GrantTypes: world.AllGrants, ResponseTypes: world.AllResponseTypes,
+			Scopes: []string{"openid", "offline", "fosite"}})
 		client := []string{"conf-a", "pub-c"}[si%2]
 		wrong := "conf-b"
 		scope := "fosite"
@@ -115,7 +118,7 @@ func C16(c *run.Ctx) {
 						c.Violate(run.Violation{Kind: "alive:expired", Key: "alive:expired user_code", Detail: "user code accepted after its expiry", History: hist})
 					}
 				}
-			case "pollR", "pollW", "pollWbody", "pollRsplit":
+			case "pollR", "pollW", "pollWbody", "pollWpub", "pollRsplit":
 				if ev == "pollRsplit" {
 					ev = "pollR"
 					if d.decision == "accepted" && !d.used && !expired && !boundary {
@@ -141,7 +144,12 @@ func C16(c *run.Ctx) {
 					as = wrong
 				}
 				var out *world.Out
-				if ev == "pollWbody" {
+				if ev == "pollWpub" {
+					// a foreign PUBLIC client identifies itself in the Basic header (empty password) and names the right client in the body
+					out = w.Token(url.Values{"grant_type": {"urn:ietf:params:oauth:grant-type:device_code"}, "device_code": {d.dc}, "client_id": {client}},
+						world.Auth{Mode: "raw", RawHeader: "Basic " + base64.StdEncoding.EncodeToString([]byte("pub-x:"))})
+					ev = "pollW"
+				} else if ev == "pollWbody" {
 					// the wrong client authenticates as itself in the header while naming the right client in the body
 					out = w.Token(url.Values{"grant_type": {"urn:ietf:params:oauth:grant-type:device_code"}, "device_code": {d.dc}, "client_id": {client}}, world.Basic(wrong, "secret-of-b"))
 					ev = "pollW"
